@@ -420,7 +420,24 @@ def lifecycle(inst):
             if not descriptive(e) and view != "top":
                 break
         log(op="meta", meta=metadata(built))
+    # what the queries cannot show (e.g. a frozen flag): after all these elaborations the instance must
+    # still accept exactly what a fresh twin of it accepts
+    try:
+        twin = inst["thunk"]()
+        for used, fresh in zip(built.get("meta", []), twin.get("meta", [])):
+            if isinstance(used, MemoryMap) and isinstance(fresh, MemoryMap):
+                log(op="probe", same=int(_probe(used) == _probe(fresh)), what=str(_probe(fresh)))
+    except Exception:
+        pass
     return steps
+
+
+def _probe(mm):
+    from .memmap import Reg
+    try:
+        return ("ok",) + tuple(mm.add_resource(Reg(), name=("__probe__",), size=1))
+    except Exception as e:
+        return ("refused", type(e).__name__)
 
 
 _INSTS = []
